@@ -15,7 +15,8 @@
    [P] partial.  What is NOT proved (covered by the correspondence + the oracles of checks/c07.py only) is listed at
    C07_order_inv_partial. *)
 From AV Require Import Base.Bytes Base.Outcome Hash.HashModel Spec.SpecOps Spec.SpecReal Tree.Heap Tree.Ops Tree.Range Tree.ValidSubs
-  Tree.SpecWF Tree.SpecWFReal Tree.RangeProofsCalc Tree.RangeProofsOps Tree.RangeProofsLoader Tree.RangeProofsReal.
+  Tree.SpecWF Tree.SpecWFReal Tree.RangeProofsCalc Tree.RangeProofsOps Tree.RangeProofsLoader Tree.RangeProofsReal Tree.RangeProofsParser.
+From AV Require Xml.Parser.
 Open Scope list_scope.
 Open Scope N_scope.
 
@@ -82,6 +83,20 @@ Theorem C07_create_err :
   forall pos : N, e_create_sub_element_at T LATEST h name pos w = Val (ER er, w).
 Proof. exact create_err_all_positions. Qed.
 
+(* [U] named creation succeeds only inside the reported range, with a non-empty item name and for a type that is named in
+   the version (the converse needs the item-name validity and path uniqueness conditions and is not proved; tied by the sweep,
+   which creates every named child at every position) *)
+Theorem C07_create_named_only_in_range :
+  forall (T : tables) (check_fn : N -> list N -> res bool) (LATEST : N)
+         (h : id) (n : node) (m v name : N) (item : list N) (pos : N) (w : world) (c : id) (w' : world),
+  w_nodes w h = Some n ->
+  model_of h w = Val (OK m, w) -> min_version LATEST h w = Val (OK v, w) ->
+  e_create_named_sub_element_at T check_fn LATEST h name item pos w = Val (OK c, w') ->
+  exists lo hi et ix,
+    calc_element_insert_range T n name v w = Val (OK (lo, hi), w) /\ lo <= pos <= hi /\ item <> [] /\
+    find_sub_element T (n_type n) name v = Val (Some (et, ix)) /\ is_named_in_version T et v = Val true.
+Proof. exact create_named_at_only_in_range. Qed.
+
 (* [U] list_valid_sub_elements: is_allowed of every listed name is exactly "the range is not an error" ... *)
 Theorem C07_allowed_iff_range :
   forall (T : tables) (LATEST : N) (h : id) (n : node) (v : N) (w : world) (r : list valid_info) (w' : world),
@@ -142,6 +157,19 @@ Theorem C07_ordered_loader_accepts :
   forall T : tables, SpecWF T ->
   forall (ty : etype) (v : N) (items : list (option N)), Ordered T ty v items -> LoaderAccepts T ty v items.
 Proof. exact ordered_loader_accepts. Qed.
+
+(* [U] LoaderAccepts is stated with Range.choice_conflict / Range.too_many; these are faithful to the parser model: when they
+   answer `Some false` the functions check_element_conflict / check_multiplicity of Xml/Parser.v (the model of parser.rs that
+   C01/C02/C08 tie to the implementation) return without warning, without error and without touching the parser state,
+   in strict and in lenient mode *)
+Theorem C07_loader_checks_quiet :
+  forall (strict : bool) (T : tables) (name : N) (ty : etype) (prev ix : list N)
+         (content : list (Parser.etree + Parser.cdata)) (st : Parser.pstate),
+  (choice_conflict T ty prev ix = Some false ->
+   Parser.check_element_conflict strict T name ty prev ix st = Val (Parser.Ret tt st)) /\
+  (content <> [] -> too_many T ty ix name (seen_of content) = Some false ->
+   Parser.check_multiplicity strict T name ty ix content st = Val (Parser.Ret tt st)).
+Proof. exact loader_checks_quiet. Qed.
 
 (* [F witness] the converse is false of the current tables: the loader accepts <AUTOSAR> with AR-PACKAGES before ADMIN-DATA.
    "Specification order" is enforced by the editing API only, not by the loader (parser.rs skips the sequence check on purpose). *)
